@@ -183,3 +183,24 @@ def encode_pickle_frame_py2(entries, protocol=2, r=None):
   assert [(a, tuple(b)) for a, b in back] == [(n, (t, v)) for n, (t, v) in entries] or any(
     isinstance(x, float) and x != x for _, tv in entries for x in tv), (payload, back)
   return frame(payload)
+
+
+def encode_pickle_frame_py2_raw(entries, protocol=2, r=None):
+  """Like encode_pickle_frame_py2 but the names are given as raw bytes (they need not be UTF-8); no self-check."""
+  out = [b'\x80\x02'] if protocol == 2 else []
+  out.append(b'(l' if protocol == 0 else b']')
+  if protocol != 0 and entries:
+    out.append(b'(')
+  for n, (t, v) in entries:
+    s_ = _py2_str(n, protocol, r)
+    tt, vv = _py2_num(t, protocol), _py2_num(v, protocol)
+    if protocol == 2:
+      out.append(s_ + tt + vv + b'\x86\x86')
+    else:
+      out.append(b'(' + s_ + b'(' + tt + vv + b't' + b't')
+    if protocol == 0:
+      out.append(b'a')
+  if protocol != 0 and entries:
+    out.append(b'e')
+  out.append(b'.')
+  return frame(b''.join(out))
